@@ -1,6 +1,7 @@
 import AcraModel.Envelope.Poison
 import AcraModel.Searchable.Index
 import AcraModel.Generated.TranslatorOps
+import AcraModel.Generated.Wiring
 /-
 The eight encrypt/decrypt operations of AcraTranslator (`cmd/acra-translator/common/service.go`,
 `TranslatorService.{Encrypt, Decrypt, EncryptSym, DecryptSym, EncryptSearchable, DecryptSearchable,
@@ -90,12 +91,34 @@ def encryptSearchableWith (k : Kind) (c : CryptoOps) (st : Store) (data : Bytes)
   let id ← checkRequest false clientID addCtx
   Searchable.translatorEncrypt c (st.hmac id) (st.keys id) k data rnd
 
+/-- the Go method a searchable decrypt of kind `k` is -/
+def searchableOp : Kind → String
+  | .struct => "DecryptSearchable"
+  | .block => "DecryptSymSearchable"
+
+/-- what the data-flow facts say the argument of the poison check on the failure path `branch` of operation `op`
+HOLDS (`Wiring.translatorPoisonSites`, regenerated; `unknown` when the operation has no check on that path) -/
+def siteHolds (op branch : String) : String :=
+  match Generated.Wiring.translatorPoisonSites.find? (fun r => r.1 == op && r.2.1 == branch) with
+  | some r => r.2.2.2.1
+  | none => "unknown"
+
+/-- the bytes a poison check scans, by what its argument holds: the caller's `data`, `d = dataToDecrypt data hash`,
+the `rest` behind the hash – or nothing (`nil`: the second result of `ExtractHashAndData` when no hash was found;
+`unknown`: no check) -/
+def siteBuffer (holds : String) (data d rest : Bytes) : Bytes :=
+  if holds = "input" then data
+  else if holds = "hash++input" then d
+  else if holds = "rest-after-hash" then rest
+  else []
+
 /-- `DecryptSearchable` / `DecryptSymSearchable`: the hash comes as a separate argument (`some`) or
-in front of the envelope (`none`). If no hash can be cut off, the poison detector runs over the whole
-input and the client gets an error (on the pinned tree only `DecryptSymSearchable` did that,
-`DecryptSearchable` failed at once – repaired by "fix: DecryptSearchable checks for poison records when
-no hash can be split off"); otherwise the rest is revealed with the handler of the kind (failure ⇒ poison
-scan of the rest, error) and the hash is verified. -/
+in front of the envelope (`none`). If no hash can be cut off, the poison detector runs and the client gets an error
+(on the pinned tree only `DecryptSymSearchable` did that, `DecryptSearchable` failed at once – repaired by "fix:
+DecryptSearchable checks for poison records when no hash can be split off"); otherwise the rest is revealed with the
+handler of the kind (failure ⇒ poison scan, error) and the hash is verified. WHAT the two poison checks scan is read
+from the regenerated table (`siteHolds`): on the current tree the whole `dataToDecrypt` when no hash was found, the
+rest behind the hash when the reveal failed (`Props/C15.fact_translator_sites`). -/
 def decryptSearchableWith (k : Kind) (c : CryptoOps) (st : Store) (data : Bytes) (hash : Option Bytes)
     (clientID addCtx : Option Bytes) : Out Bytes × Nat :=
   match checkRequest false clientID addCtx with
@@ -104,9 +127,10 @@ def decryptSearchableWith (k : Kind) (c : CryptoOps) (st : Store) (data : Bytes)
   | .ok id =>
     let d := dataToDecrypt data hash
     match extractHashAndData d with
-    | none => (.err, poisonScan c st.poison d)
+    | none => (.err, poisonScan c st.poison (siteBuffer (siteHolds (searchableOp k) "no-hash") data d []))
     | some (h, container) =>
-      match Envelope.translatorDecrypt c st.poison (st.keys id) k container with
+      match Envelope.translatorDecryptScan c st.poison (st.keys id) k container
+          (siteBuffer (siteHolds (searchableOp k) "decrypt-failed") data d container) with
       | (.ok plain, a) => if isEqual c (st.hmac id) h plain then (.ok plain, a) else (.err, a)
       | (o, a) => (o, a)
 
